@@ -101,7 +101,9 @@ func TestVerifC10(t *testing.T) {
 	// server-to-server command table, retries must be recognised all the same
 	// foldsnapshot: a snapshot taken "much later" (compaction time far in the future): every entry is old enough
 	// to be folded into the snapshot state, so that the markers have to survive in the state alone
-	alphabet := []string{"postA", "retryA", "pingA", "postB", "retryB", "postS", "retryS", "deathA", "snapshot", "foldsnapshot", "restart"}
+	// junkA: a line the IRC parser cannot make a message of (a prefix without a command) is a message like any
+	// other as far as the log and the duplicate detection are concerned
+	alphabet := []string{"postA", "retryA", "pingA", "junkA", "postB", "retryB", "postS", "retryS", "deathA", "snapshot", "foldsnapshot", "restart"}
 	base := t.TempDir()
 	seqs := vSeqs(alphabet, depth)
 	if rp := os.Getenv("VERIF_REPLAY"); rp != "" {
@@ -166,6 +168,13 @@ func TestVerifC10(t *testing.T) {
 			case strings.HasPrefix(op, "post"):
 				p := &c10Posted{sess: who, text: fmt.Sprintf("msg-%s-%d", who, oi), cmid: next()}
 				if r := n.post(sess[who], line(who, p.text), p.cmid); r.Code != 200 {
+					res.report(sigs, "C10", "POST refused", fmt.Sprintf("op %d of %v: %d %s", oi, seq, r.Code, r.Body), seq)
+				}
+				last[who] = p
+				posted = append(posted, p)
+			case strings.HasPrefix(op, "junk"):
+				p := &c10Posted{sess: who, text: fmt.Sprintf("junk-%s-%d", who, oi), cmid: next(), line: ":junk" + strconv.Itoa(oi)}
+				if r := n.post(sess[who], p.line, p.cmid); r.Code != 200 {
 					res.report(sigs, "C10", "POST refused", fmt.Sprintf("op %d of %v: %d %s", oi, seq, r.Code, r.Body), seq)
 				}
 				last[who] = p
